@@ -896,6 +896,102 @@ async fn read_table(a: &ShardArgs) {
     }
 }
 
+/// part L: READs with more object headers than the outstation is configured to take (64 unless configured). The request
+/// is not served in full, so its response must say so (IIN2 request-error bit), whether it is answered at once or after
+/// having been deferred behind an unsolicited confirm wait; what it does carry is selected by the leading headers.
+async fn read_limit(a: &ShardArgs) {
+    let mut r = a.rng(&format!("c12/limit/{}", a.shard));
+    for round in 0..6u64 {
+        let limit = *r.pick(&[None, None, Some(65u16), Some(80), Some(3), Some(1)]);
+        let cap = limit.unwrap_or(64) as usize;
+        let deferred = round % 2 == 1;
+        for over in [0usize, 1, 2, 5] {
+            let mut cfg = OutCfg::default();
+            cfg.sol_tx = 2048;
+            cfg.confirm_timeout_ms = 1000;
+            cfg.max_read_headers = limit;
+            cfg.unsolicited = deferred;
+            let mut rr = r.fork();
+            let mut sim = OutSim::start_with(cfg.clone(), |db| populate(db, &mut rr, 9)).await;
+            let first = sim.collect();
+            let useq = first
+                .iter()
+                .filter_map(|x| x.fragment())
+                .filter(|f| f.len() >= 2 && f[1] == ra::F_UNSOL_RESPONSE)
+                .map(|f| f[0] & 15)
+                .last();
+            if deferred && useq.is_none() {
+                continue;
+            }
+            let n = cap + over;
+            let seq = (r.below(16)) as u8;
+            let mut b = ra::B::request(ra::F_READ, seq);
+            for k in 0..n {
+                let i = ((k * 4) % 9) as u8;
+                b = b.range8(30, 0, i, i, &[]);
+            }
+            let rq = b.done();
+            let mut rx = sim.request(&rq).await;
+            if deferred {
+                // the READ waits behind the null unsolicited response; confirming that lets it be served
+                if rx.iter().filter_map(|x| x.fragment()).any(|f| f.len() >= 2 && f[1] == ra::F_RESPONSE) {
+                    out::count("L_answered_before_the_unsolicited_confirm", 1);
+                }
+                if let Some(u) = useq {
+                    rx.extend(sim.request(&ra::B::confirm(u, true).done()).await);
+                }
+            }
+            out::eval(1);
+            let frs: Vec<Vec<u8>> = rx
+                .iter()
+                .filter_map(|x| x.fragment())
+                .filter(|f| f.len() >= 4 && f[1] == ra::F_RESPONSE)
+                .map(|f| f.to_vec())
+                .collect();
+            let how = if deferred { "deferred" } else { "at-once" };
+            let viol = |rule: &str, why: String, resp: Option<&Vec<u8>>| {
+                out::violation(
+                    P,
+                    &format!("C12.{rule}"),
+                    &format!("{how}|over{}", over.min(2)),
+                    J::obj(vec![
+                        ("why", J::s(why)),
+                        ("limit", J::U(cap as u64)),
+                        ("headers", J::U(n as u64)),
+                        ("response", J::s(resp.map(|x| hex(&x[..x.len().min(40)])).unwrap_or_default())),
+                    ]),
+                    J::obj(vec![
+                        ("check", J::s("c12")),
+                        ("seed", J::U(a.seed)),
+                        ("shard", J::U(a.shard)),
+                        ("nshards", J::U(a.nshards)),
+                    ]),
+                );
+            };
+            let Some(f) = frs.first() else {
+                viol("L_read_not_answered", format!("a READ with {n} object headers got no response"), None);
+                continue;
+            };
+            let nobj = ra::decode_response_measurements(&f[4..]).map(|(m, _)| m.len()).unwrap_or(usize::MAX);
+            let err = f[3] & (ra::IIN2_NO_FUNC | ra::IIN2_OBJECT_UNKNOWN | ra::IIN2_PARAM_ERROR) != 0;
+            if over == 0 {
+                if err || nobj != n {
+                    viol("L_within_limit", format!("a READ with exactly the admitted {n} one-point headers: error bit {err}, {nobj} objects"), Some(f));
+                } else {
+                    out::count(&format!("L_at_limit_served_in_full_{how}"), 1);
+                }
+            } else if nobj >= n && nobj != usize::MAX {
+                // served in full although over the limit: nothing was refused, nothing to report
+                out::count("L_over_limit_served_in_full", 1);
+            } else if !err {
+                viol("L_truncation_not_reported", format!("a READ with {n} one-point headers (limit {cap}) was answered with {nobj} objects and no IIN2 error bit"), Some(f));
+            } else {
+                out::count(&format!("L_over_limit_reported_{how}"), 1);
+            }
+        }
+    }
+}
+
 pub fn run(a: &ShardArgs) -> Result<(), String> {
     let n = a.n(6000);
     let only: Option<u64> = a
@@ -917,6 +1013,8 @@ pub fn run(a: &ShardArgs) -> Result<(), String> {
     if only.is_none() {
         out::progress("READ table");
         run_scenario(read_table(a));
+        out::progress("READ header limit");
+        run_scenario(read_limit(a));
     }
     Ok(())
 }
